@@ -1181,6 +1181,9 @@ func encWanted(codec string) bool { return strHasPrefix(codec, "avc") || strHasP
 // ClearKey default_KID is THE server key id (the one in the init segments' tenc boxes).
 //@ func LiveMPD
 //@   wiring
+//@   callsite calcWrapTimes requires windowEndsAtStop: (cfg.StopTimeS == nil ==> arg_nowMS == nowMS && !afterStop) && (cfg.StopTimeS != nil ==> arg_nowMS == min(nowMS, *cfg.StopTimeS*1000) && afterStop == (*cfg.StopTimeS*1000 < nowMS))
+//@   callsite makeMPDStatic requires staticOnlyAfterStop: afterStop && cfg.StopTimeS != nil && arg1 == *cfg.StopTimeS - cfg.StartTimeS
+//@   callsite addPatchLocation requires patchOnlyWhileLive: !afterStop
 //@   callsite NewContentProtection requires notPreEncrypted: !a.refRep.PreEncrypted
 //@   callsite id16.String requires advertisedKidIsInitKid: isSpecKid(arg0)
 
@@ -1217,7 +1220,8 @@ func encWanted(codec string) bool { return strHasPrefix(codec, "avc") || strHasP
 // C06: period splitting
 
 // splitPeriod: periods tile wall-clock time (period pNr covers [pNr*periodDur, (pNr+1)*periodDur)
-// seconds, its id and start are functions of pNr alone, the range runs from the period holding
+// seconds of the wall clock; its id is a function of pNr alone, its start, offset and timeline slice are
+// those borders taken relative to availabilityStartTime, clipped at 0 for the period the presentation starts in; the range runs from the period holding
 // the window start to the one holding now), each adaptation set gets the presentation time
 // offset of its period in its own timescale and exactly the segments of its period (reduceS
 // with those bounds), and a period duration that is not a multiple of the segment duration is refused.
@@ -1227,11 +1231,13 @@ func encWanted(codec string) bool { return strHasPrefix(codec, "avc") || strHasP
 //@   requires a.SegmentDurMS > 0
 //@   keep divzero: 3600 / *cfg.PeriodsPerHour; periodDur * 1000 % a.SegmentDurMS; wTimes.startTimeMS / (periodDur * 1000); wTimes.nowMS / (periodDur * 1000)
 //@   ensures rejectsNonMultiple: result == nil && cfg.PeriodsPerHour != nil ==> ((3600 / *cfg.PeriodsPerHour) * 1000) % a.SegmentDurMS == 0
-//@   callsite Seconds2DurPtr requires periodStartsAtMultiple: arg0 == pNr * periodDur
+//@   store periodStartS := requires borderAtWallClockMultiple: periodStartS == pNr*periodDur - cfg.StartTimeS
+//@   store periodEndS := requires endAtNextMultiple: periodEndS == (pNr+1)*periodDur - cfg.StartTimeS && periodStartS == max(0, pNr*periodDur - cfg.StartTimeS)
+//@   callsite Seconds2DurPtr requires periodStartRelativeToAST: arg0 == periodStartS
 //@   callsite Sprintf requires idIsPeriodNumber: arg0 == "P%d" ==> vararg0.(int) == pNr
-//@   callsite reduceS requires periodBounds: arg_timescale == timeScale && arg_periodStartS == uint64(pNr*periodDur) && arg_periodEndS == uint64((pNr+1)*periodDur)
-//@   callsite Ptr[uint64] requires ptoIsPeriodStart: arg0 == uint64(pNr*periodDur*timeScale)
-//@   callsite Ptr[uint32] requires startNumberIsFirstOfPeriod: arg0 == uint32(pNr*periodDur*timeScale/segDur)
+//@   callsite reduceS requires periodBounds: arg_timescale == timeScale && arg_periodStartS == uint64(periodStartS) && arg_periodEndS == uint64(periodEndS)
+//@   callsite Ptr[uint64] requires ptoIsPeriodStart: arg0 == uint64(periodStartS*timeScale)
+//@   callsite Ptr[uint32] requires startNumberIsFirstOfPeriod: arg0 == uint32(periodStartS*timeScale/segDur + specStartNr(cfg))
 //@   loop 1 invariant startPeriodNr == wTimes.startTimeMS / (periodDur*1000) && endPeriodNr == wTimes.nowMS / (periodDur*1000) && pNr >= startPeriodNr && periodDur == 3600 / *cfg.PeriodsPerHour
 
 // reduceS: slices the segments of one period out of a SegmentTimeline.  Proved: memory safety
